@@ -511,14 +511,17 @@ Definition hint (l : logger) (args : list str) (arg : str) (what : str) : logger
   | Some cl => out_write_line l ([40; 82; 117; 110; 32; 34] ++ cl ++ [34; 32; 116; 111; 32] ++ what ++ [46; 41])
   end.
 
+(* the first line of the summary *)
+Definition summary_line (errors warnings notes : N) : str :=
+  if negb (errors =? 0) || negb (warnings =? 0)
+  then summary_counts errors warnings notes
+  else [76; 111; 111; 107; 115; 32; 102; 105; 110; 101; 46; 10].
+
 Definition show_summary (o : opts) (l : logger) (args : list str) : logger :=
   if lo_quiet o || lo_autofix o then l
   else
     let l := if lo_show_source o then out_separate l else l in
-    let l :=
-      if negb (l_errors l =? 0) || negb (l_warnings l =? 0)
-      then out_write l (summary_counts (l_errors l) (l_warnings l) (l_notes l))
-      else out_write_line l [76; 111; 111; 107; 115; 32; 102; 105; 110; 101; 46] (*Looks fine.*) in
+    let l := out_write l (summary_line (l_errors l) (l_warnings l) (l_notes l)) in
     let l := if l_expl_avail l && negb (lo_explain o)
              then hint l args [45; 101] (*-e*) [115; 104; 111; 119; 32; 101; 120; 112; 108; 97; 110; 97; 116; 105; 111; 110; 115] (*show explanations*) else l in
     if l_fix_avail l then
